@@ -7,6 +7,8 @@ TRUSTED = [
     "with the implementation's value on every quantile case; the quantile theorem quantifies over the rank",
     "Go int32/int64 conversions, shifts with a uint count, slice indexing and fun.Invariant panics are modelled by hand (wrap32/wrap64/shl/shr, option/res results)",
     "Mean and StdDev (float summaries) are outside the property and not modelled",
+    "several live histograms: the model treats histograms and snapshots as values (Export copies, Import/Merge/New touch one store entry); "
+    "Import adopting the snapshot's slice is honoured by the driver (a snapshot is imported at most once and never touched afterwards)",
 ]
 ASSUMPTIONS = [
     "shape: 1 <= sigfigs <= 5, 1 <= min <= max < 2^62 and floor(log2 min) + subBucketCountMagnitude(sigfigs) <= 62 "
@@ -17,7 +19,7 @@ EXPLANATION = ("Theorems in coq/Props/C19.v about the integer model coq/Model/Hd
                "RecordValues, iterator, ValueAtQuantile, Min, Max, Merge, Export/Import, Equals), for all shapes, all values and all call sequences; "
                "the model is tied to /repo by re-running it under vm_compute on every generated (shape, script) case and comparing geometry, "
                "bucket/sub-bucket/counts indices, equivalent ranges, record results, totals, ranks, quantile answers, Min, Max, round-trip and merge results "
-               "with what the real histogram returned; independent Go oracles check the property itself on the implementation.")
+               "with what the real histogram returned; multi-histogram cases run Export/Import/Merge/Reset/RecordValues over a store of live histograms and snapshots and evaluate every oracle per histogram against its own data (aliasing between histograms is reported as C19:Export:aliased / C19:Import:aliased); independent Go oracles check the property itself on the implementation.")
 READY = True
 LEVEL_TEXT = ("Machine-checked Coq theorems over all shapes/values/op lists: bitLen = log2+1; every in-range value gets a valid counts index; "
               "equivalent ranges contain the value and are no wider than max(2^floor(log2 min), v/10^sigfigs); TotalCount is conserved; "
